@@ -42,6 +42,9 @@ type PropSpec struct {
 	// express THIS property (a function shared by several properties carries clauses of all of them).
 	// Supporting obligations (pre, invariants, safety, frames, locks) are always claimed.
 	ClaimOnly map[string][]string `json:"claim_only"`
+	// ClaimStatic: substrings of the package-wide static obligations (static#frame:stable:<field>,
+	// static#iface-equiv:<types>) this property's argument uses; the others belong to other properties.
+	ClaimStatic []string `json:"claim_static"`
 }
 
 // claimable reports whether an obligation group belongs to the property being rebaselined.
@@ -49,6 +52,14 @@ func (ps *PropSpec) claimable(group string) bool {
 	i := strings.Index(group, "#")
 	if i < 0 {
 		return true
+	}
+	if strings.HasPrefix(group, "static#") {
+		for _, c := range ps.ClaimStatic {
+			if strings.Contains(group, c) {
+				return true
+			}
+		}
+		return false
 	}
 	fn, rest := group[:i], group[i+1:]
 	variant := ""
